@@ -184,6 +184,23 @@ def body(chk):
         chk.count("split", nontrivial=False)
         if not same_up_to_ties(o, o3, ivs, mm) or (o3[0] == "ok" and oracle(ivs, mm, o3) is not None):
             chk.report(site + ":split", "result changes when a focal element is split into two copies sharing its mass", dict(rep, split_index=j))
+    # masses that hit a grid level exactly (no float addition involved: the first cumulated mass IS the grid value):
+    # "the smallest endpoint whose cumulated mass REACHES that level" - at the level itself the first focal element still answers
+    g = grid()
+    for k in ([0, 49, 120, 190] if chk.tier == "quick" else list(range(0, 195, 9))):
+        for route in ("stacking", "dss", "mixture"):
+            ivs = [[1.0, 2.0], [3.0, 5.0], [6.0, 7.0]]
+            rest = 1.0 - g[k]
+            masses = [g[k], rest / 2, rest - rest / 2]
+            o = run_stack(ivs, masses, route)
+            chk.count(f"{route}-exact-grid-hit", key=(route, "hit", k))
+            rep = {"kind": "oracle", "intervals": ivs, "masses": masses, "route": route, "grid_index": k}
+            if o[0] != "ok":
+                chk.report(f"{route}:exact-grid-hit", f"conversion raises {o[2]}", rep)
+            elif not (o[1][k] == 1.0 and o[2][k] == 2.0 and (k + 1 >= len(g) or (o[1][k + 1] == 3.0 and o[2][k + 1] == 5.0))):
+                chk.report(f"{route}:exact-grid-hit", f"focal element [1,2] has mass exactly the grid level {g[k]!r} (index {k}): the bounds at that level must be [1,2] "
+                           f"(its cumulated mass reaches the level) and [3,5] at the next level; got [{o[1][k]},{o[2][k]}] and "
+                           f"[{o[1][min(k + 1, len(g) - 1)]},{o[2][min(k + 1, len(g) - 1)]}]", rep)
     # round trip p-box -> DS structure -> p-box
     for k in range(6 if chk.tier == "quick" else 60):
         kind = (pbx.KINDS + pbx.TOUCH)[k % (len(pbx.KINDS) + len(pbx.TOUCH))]
